@@ -166,13 +166,21 @@ func (r *tokReader) next() string {
 func (r *tokReader) int() int     { return pi(r.next()) }
 func (r *tokReader) f() float64   { return pf(r.next()) }
 func (r *tokReader) pt() orb.Point { x := r.f(); y := r.f(); return orb.Point{x, y} }
+// pts reads a vertex list.  The slice is given spare capacity filled with sentinel points (as a
+// sub-slice of a larger buffer would have), so code that reslices or reads beyond len is observable.
 func (r *tokReader) pts() []orb.Point {
 	n := r.int()
-	ps := make([]orb.Point, n)
-	for i := range ps {
-		ps[i] = r.pt()
+	buf := make([]orb.Point, n+3)
+	for i := 0; i < n; i++ {
+		buf[i] = r.pt()
 	}
-	return ps
+	for i := n; i < n+3; i++ {
+		buf[i] = orb.Point{123456789.25 + float64(i), -987654321.5 - float64(i)}
+	}
+	if n == 0 {
+		return buf[:0]
+	}
+	return buf[:n]
 }
 func (r *tokReader) rest() []string { return r.t[r.i:] }
 
